@@ -16,6 +16,7 @@ from . import common as C
 from . import workload as W
 
 PAIR_OPS = ("pair_read", "pair_deep", "pair_basic")
+RESTART_OPS = ("pickle", "copy", "deepcopy", "reduce", "legacy_setstate", "deepcopy_in", "pickle_in", "copy_in")
 NETLOC_DERIVED = ("raw_user", "raw_password", "raw_host", "explicit_port")
 PREFILLED = ("raw_host", "explicit_port", "raw_user", "raw_password", "scheme", "raw_path", "raw_query_string", "raw_fragment")
 
@@ -78,7 +79,7 @@ class Exec:
                 self.after_cfg0 = True
             if name == "lru_resize" and op["args"][2] == 0:
                 self.after_cfg0 = True
-        if name in ("pickle", "copy", "deepcopy", "reduce", "legacy_setstate") and res is not None:
+        if name in RESTART_OPS and res is not None:
             o = op["on"]
             self.pairs.append((o, idx))
             self.ctr.inc("restart_" + name)
@@ -88,7 +89,7 @@ class Exec:
             pre = [k for k in memo if k in PREFILLED or k in W.ACCESSORS_SET]
             if src["op"] == "new" and isinstance(src["args"][0] if src.get("args") else None, str) and not (src.get("kwargs") or {}).get("encoded"):
                 self.ctr.inc("restart_of_parser_prefilled")
-            if src["op"] in ("pickle", "copy", "deepcopy", "reduce", "legacy_setstate"):
+            if src["op"] in RESTART_OPS:
                 self.ctr.inc("restart_twin_of_twin")
             if pre:
                 self.nontrivial.add(C.h8(W.shallow(self.slots[o])))
@@ -150,6 +151,16 @@ class Exec:
             both("state", lambda: W.shallow(a), lambda: W.shallow(b))
             both("type", lambda: type(a).__name__, lambda: type(b).__name__)
             both("eq_self", lambda: a == a, lambda: b == b, True)
+            third = op["args"][0] if op.get("args") else None
+            c = self.slots[third["v"]] if isinstance(third, dict) and third["v"] < len(self.slots) else None
+            if c is not None and W.is_url(c):
+                self.ctr.inc("pair_basics_with_third_url")
+                both("third_eq", lambda: a == c, lambda: b == c)
+                both("third_eq_rev", lambda: c == a, lambda: c == b)
+                both("third_lt", lambda: a < c, lambda: b < c)
+                both("third_ge", lambda: c >= a, lambda: c >= b)
+                both("third_dict", lambda: {c: 1}.get(a), lambda: {c: 1}.get(b))
+                both("third_set", lambda: len({a, c}), lambda: len({b, c}))
         if diff:
             self.violations.append({
                 "kind": "twin_mismatch",
@@ -175,6 +186,20 @@ class Exec:
         first = self.first.get(id(self.slots[idx]), idx)
         o = self.ops[first]
         return {"op": o["op"], "args": o.get("args"), "kwargs": o.get("kwargs")}
+
+
+def _third(rng, ex, o):
+    """A third URL (preferably one that compares equal to the original) against which original
+    and twin must behave identically: a twin has to be substitutable for its original."""
+    live = ex.live()
+    if not live:
+        return None
+    eq = W.equal_partners(ex.slots, o)
+    warm = [j for j in eq if W.memo_snapshot(ex.slots[j])]
+    if warm and rng.random() < 0.6:
+        eq = warm  # a partner whose memo is already filled (it was read, compared or pickled before)
+    c = rng.choice(eq) if eq and rng.random() < 0.7 else rng.choice(live)
+    return {"$": "url", "v": c}
 
 
 def _try(f):
@@ -211,7 +236,7 @@ def generate_and_run(seed, cfg):
         if not live or r < 0.22:
             op = W.gen_constructor(rng, at, live)
         elif r < 0.22 + knobs["restart_rate"] and restarts < 8:
-            op = W.gen_restart(rng, live if rng.random() < 0.8 or not ex.pairs else [p[1] for p in ex.pairs if ex.slots[p[1]] is not None] or live)
+            op = W.gen_restart(rng, live if rng.random() < 0.8 or not ex.pairs else [p[1] for p in ex.pairs if ex.slots[p[1]] is not None] or live, ex.slots)
             restarts += 1
         elif r < 0.75 and ex.pairs:
             o, t = rng.choice(ex.pairs)
@@ -219,7 +244,7 @@ def generate_and_run(seed, cfg):
             if r2 < 0.7:
                 op = {"op": "pair_read", "on": o, "other": t, "args": [rng.choice(W.ALL_READS), rng.randint(0, 1)]}
             elif r2 < 0.85:
-                op = {"op": "pair_basic", "on": o, "other": t, "args": []}
+                op = {"op": "pair_basic", "on": o, "other": t, "args": [_third(rng, ex, o)]}
             else:
                 o1 = list(W.ALL_READS)
                 o2 = list(W.ALL_READS)
@@ -231,7 +256,7 @@ def generate_and_run(seed, cfg):
         elif r < 0.93:
             op = W.gen_derivation(rng, at, live)
         else:
-            op = W.gen_read(rng, live)
+            op = W.gen_read(rng, live, ex.slots)
         ex.step(op)
     # closing sweep: every pair, full observation in independently shuffled orders
     for o, t in list(ex.pairs):
@@ -239,7 +264,7 @@ def generate_and_run(seed, cfg):
         o2 = list(W.ALL_READS)
         rng.shuffle(o1)
         rng.shuffle(o2)
-        ex.step({"op": "pair_basic", "on": o, "other": t, "args": []})
+        ex.step({"op": "pair_basic", "on": o, "other": t, "args": [_third(rng, ex, o)]})
         ex.step({"op": "pair_deep", "on": o, "other": t, "args": [o1, o2]})
     return finish(ex, seed)
 
